@@ -181,7 +181,7 @@ def parse_args(argv: "Optional[List[str]]") -> Settings:
                 sys.stderr.write("--throttle takes one integer argument.\n")
                 sys.exit(1)
             flags["--throttle"] = throttle
-        elif not after_flags and longarg.startswith("--init"):
+        elif not after_flags and longarg.startswith("--init="):
             flags["--init"] = longarg[len("--init=") :]
         elif not after_flags and longarg.startswith("-") and len(longarg) > 1:
             sys.stderr.write("Unrecognized flag: " + arg + "\n")
